@@ -17,7 +17,9 @@
 (*          number = chain height, i.e. below every fork block)                                         *)
 (* Every place where ANN/APP departs from REF adds a tag to `dev`:                                      *)
 (*   documented deviations:  "budget" (per-transaction budget, BURN), "pfe" (precompile at 0xfe)        *)
-(*   undocumented (findings): "deposit", "static", "nonce0", "frontier-create" - see the comments       *)
+(*   undocumented (findings): "deposit", "nonce0", "frontier-create" - see the comments                 *)
+(*   (a fourth one, "static" - write protection of STATICCALL switched off below the Byzantium block -   *)
+(*   was found with this spec and repaired in /repo; static mode is now enforced in every mode)          *)
 (* A behaviour with dev = {} is common to all three modes.                                              *)
 EXTENDS Integers, Sequences, FiniteSets, TLC
 
@@ -37,7 +39,7 @@ ASSUME Entry \in {"direct", "tramp"}
 ASSUME Mode \in {"REF", "ANN", "APP"}
 
 \* ---- the three semantics, as switches
-StaticEnforced   == Mode # "APP"   \* interpreter.enforceRestrictions is gated by chainRules.IsByzantium
+StaticEnforced   == TRUE           \* interpreter.enforceRestrictions (was gated by chainRules.IsByzantium: FALSE in APP)
 NewNonce         == IF Mode = "APP" THEN 0 ELSE 1   \* evm.create: SetNonce(addr,1) gated by IsEIP158
 Homestead        == Mode # "APP"   \* evm.create / opCreate: code-store failure reverts only from Homestead on
 DepositByFrameGas == Mode # "REF"  \* evm.create charges the code deposit to contract.Gas; the in-tree CALLs never
